@@ -360,13 +360,17 @@ func runC17(c *Ctx) {
 			genPats = append(genPats, stem[:a]+mid+stem[b:]+rp.Pick([]string{"\\.lua", ".lua", "lua", "\\.lua", ""}))
 		}
 	}
-	for _, p := range append([]string{"zoo1.lua", "sub/", "sub/zo.*lua", "nomatch/", "other/zoo4.lua", "sub/deep/", "syn.*lua", "(", "[", "sub/zo.*\\.lua", "zoo[12]\\.lua", "deep/.*3\\.lua"}, genPats...) {
+	for _, p := range append([]string{"zoo1.lua", "sub/", "sub/zo.*lua", "nomatch/", "other/zoo4.lua", "sub/deep/", "syn.*lua", "(", "[", "sub/zo.*\\.lua", "zoo[12]\\.lua", "deep/.*3\\.lua", "^sub/", "^zoo1\\.lua", "^other/zo.*lua"}, genPats...) {
 		cf := c17AllOn()
 		cf.IgnoreErr = []string{p}
 		cf.Label = "ignore-errors:" + p
 		confs = append(confs, cf)
 	}
-	for _, p := range []string{"zoo1.lua", "sub/", "other/", "sub/deep/zoo3.lua"} {
+	// (literal rules, unanchored regular expressions, and expressions anchored at the start of the project-relative path,
+	// the form the manual shows)
+	for _, p := range []string{"zoo1.lua", "sub/", "other/", "sub/deep/zoo3.lua", "^sub/", "^zoo1\\.lua", "^other/zo.*\\.lua", "sub/zo.*\\.lua", "^syn.*\\.lua", "^sub/deep/"} {
+		// (a rule that ends in ".lua" is a file rule, every other rule a folder rule - by design; the rules here are
+		// unambiguous in that respect)
 		cf := c17AllOn()
 		cf.IgnoreFile = []string{p}
 		cf.Label = "ignore-analysis:" + p
